@@ -126,6 +126,61 @@ def run(tier, seed):
                 d = astmap.first_diff(astmap.gtree(t["tree"]), got)
                 if d:
                     bad.append(("expression '%s' parsed into a different tree: %s" % (" ".join(t[mode]), d), {"source": " ".join(t[mode]), "got": got}))
+    # ---- 1b. the same trees in the other syntactic positions an expression can stand in (statement dispatch, declaration
+    #          type-ahead, clause separators): value of an assignment statement, initialiser, return value, condition, arguments,
+    #          index and element value of an element assignment, for-clauses
+    CONTEXTS = [
+        ("v = %s;", lambda st: [st["e"]] if st["k"] == "assign" and st.get("n") == "v" else ([st["e"]["e"]] if st["k"] == "expr" and st["e"]["k"] == "asg" and st["e"]["n"] == "v" else None)),
+        ("int d = %s;", lambda st: [st["init"]] if st["k"] == "decl" else None),
+        ("return %s;", lambda st: [st["e"]] if st["k"] == "ret" else None),
+        ("if (%s) { }", lambda st: [st["c"]] if st["k"] == "if" else None),
+        ("while (%s) { }", lambda st: [st["c"]] if st["k"] == "while" else None),
+        ("g(%s, 1, %s);", lambda st: [st["e"]["a"][0], st["e"]["a"][2]] if st["k"] == "expr" and st["e"]["k"] == "call" and len(st["e"]["a"]) == 3 else None),
+        ("arr[%s] = %s;", lambda st: [st["e"]["i"], st["e"]["e"]] if st["k"] == "expr" and st["e"]["k"] == "aasg" else None),
+        ("for (v = %s; %s; v = %s) { }", lambda st: [st["init"]["e"]["e"] if st["init"]["k"] == "expr" else st["init"]["e"], st["c"], st["upd"]["e"]] if st["k"] == "for" else None),
+    ]
+    cj = []
+    step = 1 if tier != "quick" else 3
+    for ci, (tmpl, _) in enumerate(CONTEXTS):
+        # every assignment-rooted tree, and every step-th other tree, in minimal rendering
+        sel = [t for k, t in enumerate(trees) if t["tree"]["k"] == "asg" or k % step == ci % step]
+        if tmpl.startswith("arr["):
+            # documented: a constant negative index (a[-1]) is rejected at parse time
+            sel = [t for t in sel if not (t["tree"]["k"] == "un" and t["tree"]["op"] == "-" and t["tree"]["e"]["k"] == "lit")]
+        for i in range(0, len(sel), B):
+            chunk = sel[i:i + B]
+            body = "".join("  " + tmpl.replace("%s", " ".join(t["min"])) + "\n" for t in chunk)
+            cj.append({"id": len(cj), "stage": "ast", "src": "function main() -> int {\n%s}\n" % body, "_ctx": ci, "_chunk": chunk})
+    cres = runner.run_jobs([{k: v for k, v in j.items() if not k.startswith("_")} for j in cj])
+    ctx_checked = 0
+    for j in cj:
+        r = cres[j["id"]]
+        tmpl, pick = CONTEXTS[j["_ctx"]]
+        todo = j["_chunk"]
+        stmts = r["ast"]["funcs"][0]["body"] if r["status"] == "ok" else None
+        if stmts is None or len(stmts) != len(todo):
+            # find the offending tree(s) individually
+            one = [{"id": i, "stage": "ast", "src": "function main() -> int {\n  %s\n}\n" % tmpl.replace("%s", " ".join(t["min"]))} for i, t in enumerate(todo)]
+            ores = runner.run_jobs(one)
+            pairs = [(t, ores[i]["ast"]["funcs"][0]["body"][0] if ores[i]["status"] == "ok" and len(ores[i]["ast"]["funcs"][0]["body"]) == 1 else None, ores[i]) for i, t in enumerate(todo)]
+        else:
+            pairs = [(t, st, None) for t, st in zip(todo, stmts)]
+        for t, st, raw in pairs:
+            ctx_checked += 1
+            text = tmpl.replace("%s", " ".join(t["min"]))
+            if st is None:
+                bad.append(("statement '%s' follows the documented grammar but is rejected: %s" % (text, (raw.get("what") or raw["status"]).strip()), {"source": text, "result": raw}))
+                continue
+            got = pick(astmap.strip_paren(st))
+            want = astmap.gtree(t["tree"])
+            if got is None:
+                bad.append(("statement '%s' parsed into another kind of statement (%s)" % (text, st.get("k")), {"source": text, "got": st}))
+                continue
+            for g in got:
+                d = astmap.first_diff(want, g)
+                if d:
+                    bad.append(("expression in '%s' parsed into a different tree: %s" % (text, d), {"source": text, "expected": want, "got": g}))
+                    break
     # ---- 2. statements, functions, class members: generated programs rendered and parsed back
     nprog = 300 if tier == "quick" else 4000
     progs = gen_core.random_programs(seed, nprog) + gen_scope.programs() + gen_obj.programs(seed + 1, nprog)
@@ -191,7 +246,7 @@ def run(tier, seed):
         out.violation(msg, doc, "case%d" % n)
     cov = {"states": meta["distinct"], "transitions": meta["generated"],
            "traces_validated_against_impl": 2 * len(trees) + len(progs) + len(prod),
-           "expression_trees": len(trees), "expression_renderings_parsed": expr_checked, "programs_round_tripped": len(progs),
+           "expression_trees": len(trees), "expression_renderings_parsed": expr_checked, "expressions_in_other_positions_parsed": ctx_checked, "programs_round_tripped": len(progs),
            "class_member_combinations": len(prod), "equivalent_spellings": len(eq_pairs), "types_in_every_position": len(type_cases), "exhaustive": True,
            "samples": [{"tree": trees[4000]["tree"], "minimal": " ".join(trees[4000]["min"]), "redundant": " ".join(trees[4000]["red"])}],
            "rule": "Grammar.tla encodes docs/grammar.md (13 levels, left-associative binaries, right-associative '=', prefix - ! ~, postfix call / index / "
